@@ -41,6 +41,11 @@ RULE += (" Added after the white-box review: "
          "optionally one variation with a dense skip pattern (only "
          "every m-th attempt valid, m up to 60); the per-combination "
          "hooks are logged ")
+RULE += (" Added after the second white-box review: between two "
+         "simulate() calls the grid may also change by editing the value "
+         "container in place or by switching the unpacking of a parameter "
+         "off; the MISC observation of every fourth repetition is 0; the "
+         "confidence-interval look-up uses levels 90/95/99. ")
 
 ASSUMPTIONS = [
     "_keep_going predicates are pure functions of (merged results, "
@@ -180,8 +185,13 @@ def _program(draw, tier):
             new = draw(st.lists(st.integers(50, 90), min_size=1, max_size=4,
                                 unique=True))
         regrid = dict(which=which, values=new,
-                      how=draw(st.sampled_from(["setitem", "add"])),
+                      how=draw(st.sampled_from(["setitem", "add", "inplace",
+                                                "unpack_off"])),
                       when=draw(st.sampled_from(["between", "hook"])))
+        if regrid["how"] == "unpack_off":
+            # the parameter is no longer swept: the iteration receives the
+            # whole list of values
+            regrid["values"] = new = [list(old)]
         nvar2 = nvar // len(old) * len(new)
         cfg["idspace"] = cfg["rep_max"] * (nvar + nvar2) + 2
     return dict(part="program", cfg=cfg, mode=mode, twice=twice,
@@ -267,7 +277,7 @@ def _check_variation_results(res_of, v_label, succ, tags, what):
             what, ratio.get_result_mean(), mean), tags)
     misc = res_of("misc")
     _expect_result("merged_misc", "%s misc (last repetition)" % what,
-                   misc.get_result(), succ[-1], tags)
+                   misc.get_result(), H.val_misc(succ[-1]), tags)
     choice = res_of("choice")
     want = [0, 0, 0, 0]
     for g in succ:
@@ -313,13 +323,30 @@ def check(case, ctx):
                     rg = case["regrid"]
                     cfg = json.loads(json.dumps(cfg))
                     name = cfg["unpacked"][rg["which"]][0]
-                    cfg["unpacked"][rg["which"]][1] = rg["values"]
+                    if rg["how"] == "unpack_off":
+                        old_vals = cfg["unpacked"][rg["which"]][1]
+                        del cfg["unpacked"][rg["which"]]
+                        cfg["fixed"] = list(cfg["fixed"]) + [[name, old_vals]]
+                    else:
+                        cfg["unpacked"][rg["which"]][1] = rg["values"]
                     values = (np.array(rg["values"])
                               if cfg["container"].get(name) == "array"
                               else list(rg["values"]))
                     def apply(name=name, values=values, how=rg["how"]):
                         if how == "setitem":
                             runner.params[name] = values
+                        elif how == "unpack_off":
+                            runner.params.set_unpack_parameter(name, False)
+                        elif how == "inplace":
+                            # the user edits the value container it gave to
+                            # the runner (what params[name] returns)
+                            cont = runner.params[name]
+                            if isinstance(cont, list):
+                                cont[:] = list(values)
+                            elif len(cont) == len(values):
+                                cont[:] = values
+                            else:
+                                runner.params[name] = values
                         else:
                             runner.params.add(name, values)
                     if rg.get("when") == "hook":
@@ -534,9 +561,10 @@ def _check_lookups(case, cfg, names, combos, runner, expected, tags, ctx):
                             "expected %r" % (fixed_d, gv, wv), tags)
         # the sibling look-up for confidence intervals selects the same
         # combinations
-        ci = res.get_result_values_confidence_intervals("ratio", 95.0,
+        P_ci = (95.0, 90.0, 99.0)[(len(fixed_d) + len(want)) % 3]
+        ci = res.get_result_values_confidence_intervals("ratio", P_ci,
                                                         fixed_d)
-        wci = [res["ratio"][i].get_confidence_interval(95.0) for i in want]
+        wci = [res["ratio"][i].get_confidence_interval(P_ci) for i in want]
         if len(ci) != len(wci) or any(
                 not np.allclose(np.asarray(a, dtype=float),
                                 np.asarray(b, dtype=float), rtol=0, atol=0,
